@@ -46,12 +46,14 @@ func (l *DNSNameUnderscoreInSLD) CheckApplies(c *x509.Certificate) bool {
 }
 
 func (l *DNSNameUnderscoreInSLD) Execute(c *x509.Certificate) *lint.LintResult {
+	// All names are examined before the verdict is chosen, so that the result does not
+	// depend on where a name that cannot be parsed sits among the others.
+	unparseable := false
 	if c.Subject.CommonName != "" && !util.CommonNameIsIP(c) {
 		domainInfo := c.GetParsedSubjectCommonName(false)
 		if domainInfo.ParseError != nil {
-			return &lint.LintResult{Status: lint.NA}
-		}
-		if strings.Contains(domainInfo.ParsedDomain.SLD, "_") {
+			unparseable = true
+		} else if strings.Contains(domainInfo.ParsedDomain.SLD, "_") {
 			return &lint.LintResult{Status: lint.Error}
 		}
 	}
@@ -59,11 +61,15 @@ func (l *DNSNameUnderscoreInSLD) Execute(c *x509.Certificate) *lint.LintResult {
 	parsedSANDNSNames := c.GetParsedDNSNames(false)
 	for i := range c.GetParsedDNSNames(false) {
 		if parsedSANDNSNames[i].ParseError != nil {
-			return &lint.LintResult{Status: lint.NA}
+			unparseable = true
+			continue
 		}
 		if strings.Contains(parsedSANDNSNames[i].ParsedDomain.SLD, "_") {
 			return &lint.LintResult{Status: lint.Error}
 		}
+	}
+	if unparseable {
+		return &lint.LintResult{Status: lint.NA}
 	}
 	return &lint.LintResult{Status: lint.Pass}
 }
